@@ -292,6 +292,60 @@ where
     crate::cover!(s, k >= 2 || (W::NBITS >= 64 && k >= 1), "words delivered");
 }
 
+/// hook-free history: a fresh writer (public API only) and the model stream receive the same K symbolic
+/// operations; after a final flush the delivered words hold exactly the model stream's bits followed by
+/// zero padding. Independent of the state-constructor hooks (and a check of the model stream itself).
+pub fn history_step<E: En, W: VW, S: Src, const K: usize>(s: &mut S)
+where
+    Wr<E, W>: BitWrite<E, Error = Infallible>,
+{
+    use crate::ms::MS;
+    let mut w = Wr::<E, W>::new(Rec::<W, RN>::new());
+    let mut m = MS::<E, false>::new();
+    let mut i = 0;
+    while i < K {
+        let op = s.u8();
+        let v = s.u64();
+        let n = s.usize_in(0, if W::NBITS <= 16 { 20 } else { 64 });
+        s.assume(op < 3);
+        if cfg!(feature = "checks") {
+            s.assume(n == 64 || v >> n == 0);
+        }
+        if op == 0 {
+            let a = w.write_bits(v, n).unwrap();
+            let b = m.write_bits(v, n).unwrap();
+            assert_eq!(a, b, "write_bits return value");
+        } else if op == 1 {
+            let x = v % 24;
+            let a = w.write_unary(x).unwrap();
+            let b = m.write_unary(x).unwrap();
+            assert_eq!(a, b, "write_unary return value");
+        } else {
+            // flush in the middle pads to the word boundary: mirror it in the model
+            let pending = m.wlen % W::NBITS;
+            let a = w.flush().unwrap();
+            assert_eq!(a, pending, "flush reports the pending bits");
+            if pending > 0 {
+                m.wlen += W::NBITS - pending;
+            }
+        }
+        i += 1;
+    }
+    let pending = m.wlen % W::NBITS;
+    let a = w.flush().unwrap();
+    assert_eq!(a, pending, "final flush reports the pending bits");
+    let total = m.wlen + if pending > 0 { W::NBITS - pending } else { 0 };
+    let be = w.verif_backend();
+    assert_eq!(be.n * W::NBITS, total, "delivered words cover exactly the stream plus padding");
+    let idx = s.usize();
+    s.assume(idx < total);
+    let got = img_bit_of_word::<E>(be.words[idx / W::NBITS].to_u128(), idx % W::NBITS);
+    assert_eq!(got, m.bit(idx), "byte image differs from the canonical stream (padding must be zero)");
+    crate::cover!(s, be.n >= 3, "several words delivered");
+    crate::cover!(s, total > m.wlen, "padding present");
+    core::mem::forget(w);
+}
+
 crate::harnesses! {
     #[kani::unwind(10)]
     c01_write_bits_be_u8 (quick, "BE,u8", "n<=64, v any u64, any state") => write_bits_step::<BE, u8, _>;
@@ -396,4 +450,18 @@ crate::harnesses! {
     #[kani::stub(std::string::ToString::to_string, crate::c13::stub_to_string)]
     #[kani::unwind(12)]
     c01_backends_le_u128 (thorough, "LE,u128: MemWordWriterSlice / MemWordWriterVec / WordAdapter<FixedSink> vs recording backend", "write_bits(v, n), any buffer state: same words delivered to every backend kind") => backend_kinds_step::<LE, u128, _>;
+    #[kani::unwind(12)]
+    c01_history_be_u8_k3 (quick, "BE,u8: public API only (no hooks), writer vs model stream", "3 symbolic operations (write_bits n<=20, write_unary x<24, flush) from a fresh writer, then flush: whole byte image") => history_step::<BE, u8, _, 3>;
+    #[kani::unwind(12)]
+    c01_history_le_u8_k3 (thorough, "LE,u8: public API only (no hooks), writer vs model stream", "3 symbolic operations (write_bits n<=20, write_unary x<24, flush) from a fresh writer, then flush: whole byte image") => history_step::<LE, u8, _, 3>;
+    #[kani::unwind(6)]
+    c01_history_be_u64_k3 (thorough, "BE,u64: public API only (no hooks), writer vs model stream", "3 symbolic operations (write_bits n<=64, write_unary x<24, flush) from a fresh writer, then flush: whole byte image") => history_step::<BE, u64, _, 3>;
+    #[kani::unwind(6)]
+    c01_history_le_u64_k3 (thorough, "LE,u64: public API only (no hooks), writer vs model stream", "3 symbolic operations (write_bits n<=64, write_unary x<24, flush) from a fresh writer, then flush: whole byte image") => history_step::<LE, u64, _, 3>;
+    #[kani::unwind(8)]
+    c01_history_le_u16_k3 (thorough, "LE,u16: public API only (no hooks), writer vs model stream", "3 symbolic operations (write_bits n<=20, write_unary x<24, flush) from a fresh writer, then flush: whole byte image") => history_step::<LE, u16, _, 3>;
+    #[kani::unwind(6)]
+    c01_history_be_u128_k3 (thorough, "BE,u128: public API only (no hooks), writer vs model stream", "3 symbolic operations (write_bits n<=64, write_unary x<24, flush) from a fresh writer, then flush: whole byte image") => history_step::<BE, u128, _, 3>;
+    #[kani::unwind(6)]
+    c01_history_be_u32_k4 (thorough, "BE,u32: public API only (no hooks), writer vs model stream", "4 symbolic operations (write_bits n<=64, write_unary x<24, flush) from a fresh writer, then flush: whole byte image") => history_step::<BE, u32, _, 4>;
 }
